@@ -85,6 +85,9 @@ class CliConstraints(Stream):
         GL.reset_caches()
         out["with_options"] = self._run(case, d, True)
         shutil.rmtree(d, ignore_errors=True)
+        GL.reset_caches()
+        out["region"] = SS.Run(dict(case, constraints=[case["cons_lines"]] if case["cons_lines"] else [], remove_constraints=False)).region()
+        GL.reset_caches()
         return out
 
     def flags(self, case, r):
@@ -102,7 +105,9 @@ class CliConstraints(Stream):
         fails = []
         a, b = r["plain"], r["with_options"]
         if b["exception"]:
-            return [("C02/cli-traceback", {"exception": b["exception"], "stderr": b["stderr_tail"]})]
+            # an internal error escaping in one of the solver's recorded regions is the recorded finding
+            reg = r.get("region", "clean")
+            return [("C02/cli-traceback" + ("" if reg == "clean" else "/" + reg), {"exception": b["exception"], "stderr": b["stderr_tail"]})]
         if a["code"] == 0:
             # closure from the inputs, computed on the universe with the pins found
             U = {}
@@ -185,14 +190,27 @@ def tree_nodes(node):
             yield n
 
 
+def tree_lines(node):
+    lines = list(node["reqs"])
+    for rel, _sub in node["incl"]:
+        lines.insert(min(len(lines), 1), "-r " + rel)
+    return lines
+
+
 def write_include_tree(path, node):
     os.makedirs(os.path.dirname(path), exist_ok=True)
-    lines = list(node["reqs"])
     for rel, sub in node["incl"]:
-        lines.insert(min(len(lines), 1), "-r " + rel)
         write_include_tree(os.path.normpath(os.path.join(os.path.dirname(path), rel)), sub)
     with open(path, "w") as f:
-        f.write("\n".join(lines) + "\n")
+        f.write("\n".join(tree_lines(node)) + "\n")
+
+
+def tree_files_as_named(path, node, acc):
+    """the files under the names the reader composes for them (directory of the including file + the spelling)"""
+    acc.append({"path": path, "lines": [l + "\n" for l in tree_lines(node)]})
+    for rel, sub in node["incl"]:
+        tree_files_as_named(os.path.join(os.path.dirname(path), rel), sub, acc)
+    return acc
 
 
 class CliNestedInputs(Stream):
@@ -245,8 +263,31 @@ class CliNestedInputs(Stream):
             m = re.match(r"^([A-Za-z0-9._-]+)==(\S+)", l)
             if m:
                 pins[GL.norm(m.group(1))] = m.group(2)
+        # what the reader alone makes of each tree (the Lean reader model is given the same files)
+        from req_compile.containers import RequirementsFile
+        read, tree_files = [], []
+        for i in range(len(case["trees"])):
+            topf = os.path.join(d, "in%d" % i, "requirements.txt")
+            try:
+                read.append(sorted(str(q) for q in RequirementsFile.from_file(topf).reqs))
+            except Exception as ex:
+                read.append("raise:" + type(ex).__name__)
+            tree_files.append({"root": topf, "files": tree_files_as_named(topf, case["trees"][i], [])})
         shutil.rmtree(top, ignore_errors=True)
-        return {"code": r["code"], "exception": r["exception"], "pins": pins, "stderr_tail": r["stderr"][-200:]}
+        return {"code": r["code"], "exception": r["exception"], "pins": pins, "stderr_tail": r["stderr"][-200:], "read": read, "tree_files": tree_files}
+
+    def model_request(self, case, r):
+        return {"op": "batch", "reqs": [{"op": "reqfile", "fuel": 12, "root": t["root"], "files": t["files"]} for t in r["tree_files"]]}
+
+    def compare(self, case, r, m):
+        for got, mod in zip(r["read"], m):
+            if "error" in mod:
+                if not (isinstance(got, str) and got.startswith("raise:")):
+                    return False
+                continue
+            if isinstance(got, str) or got != sorted(str(GL.P(t)) for t in mod["reqs"]):
+                return False
+        return True
 
     def flags(self, case, r):
         fl = ["exit:%s" % r["code"]]
